@@ -282,7 +282,7 @@ impl<'r> Gen<'r> {
             if !self.p.enums.is_empty() && *ty != Ty::Void { 1 } else { 0 }, // case-expression
             1,                                        // field / tuple index / list get
             1,                                        // literal
-            if Self::pure_ty(ty) { 1 } else { 0 },    // map / fold with a `pu` callback
+            if Self::pure_ty(ty) { if self.cfg.profile == Profile::Reentrant { 4 } else { 1 } } else { 0 }, // map / fold with a `pu` callback
         ]);
         match generic {
             7 => match self.hof_expr(ty, d) {
@@ -335,17 +335,28 @@ impl<'r> Gen<'r> {
             _ => return None,
         };
         let site = self.p.site();
+        // the list operand is a variable or itself the result of a `map` (so that a fold / map inside a
+        // callback runs `map` again while the outer `map` is still collecting its results)
+        let (src, elem) = if depth > 0 && self.rng.chance(if self.cfg.profile == Profile::Reentrant { 2 } else { 1 }, 3) {
+            self.feat("map_result_as_list_operand");
+            let t2 = self.simple_ty();
+            let f = self.pure_lambda(&[elem], &t2, depth - 1);
+            let s2 = self.p.site();
+            (Expr::StdCall { f: Std::ListMap, args: vec![Expr::Var(l), f], site: s2 }, t2)
+        } else {
+            (Expr::Var(l), elem)
+        };
         match ty {
             Ty::List(u) => {
                 self.feat("map_with_pure_callback");
                 let f = self.pure_lambda(&[elem], u, depth);
-                Some(Expr::StdCall { f: Std::ListMap, args: vec![Expr::Var(l), f], site })
+                Some(Expr::StdCall { f: Std::ListMap, args: vec![src, f], site })
             }
             _ => {
                 self.feat("fold_with_pure_callback");
                 let init = if pure { self.pure_expr(ty, 0) } else { self.leaf(ty) };
                 let f = self.pure_lambda(&[elem, ty.clone()], ty, depth);
-                Some(Expr::StdCall { f: Std::ListFold, args: vec![Expr::Var(l), init, f], site })
+                Some(Expr::StdCall { f: Std::ListFold, args: vec![src, init, f], site })
             }
         }
     }
